@@ -3833,7 +3833,12 @@ x86_Convert(struct _7zip *zip, uint8_t *data, size_t size)
 		return 0;
 
 	bufferPos = 0;
-	prevPosT = zip->bcj_prevPosT;
+	/*
+	 * Positions are relative to this call's buffer: what is carried
+	 * from one call to the next is the mask, brought up to date at
+	 * the end of each call (as x86_Convert() of the LZMA SDK does).
+	 */
+	prevPosT = (size_t)0 - 1;
 	prevMask = zip->bcj_prevMask;
 	ip = zip->bcj_ip;
 
@@ -3894,8 +3899,9 @@ x86_Convert(struct _7zip *zip, uint8_t *data, size_t size)
 			bufferPos++;
 		}
 	}
-	zip->bcj_prevPosT = prevPosT;
-	zip->bcj_prevMask = prevMask;
+	prevPosT = bufferPos - prevPosT;
+	zip->bcj_prevMask = (prevPosT > 3) ? 0 :
+	    ((prevMask << ((int)prevPosT - 1)) & 0x7);
 	zip->bcj_ip += (uint32_t)bufferPos;
 	return (bufferPos);
 }
